@@ -25,13 +25,17 @@ fn str_call(rng: &mut Rng, api: Api, text: String) -> Call {
 }
 
 fn random_call(rng: &mut Rng, sc: &mut Scenario, file_no: &mut usize) -> Call {
-    let src = match rng.below(14) {
+    let src = match rng.below(15) {
+        14 => gen::netlist_program(rng),
         13 => gen::comment_macro_program(rng),
         12 => gen::repeated_construct(rng),
         10 | 11 => gen::macro_program(rng),
         0 | 1 | 2 => gen::polluter(rng),
         3 | 4 => gen::sensitive_probe(rng),
-        5 => gen::corpus_sv(rng, 1500).to_string(),
+        5 => {
+            let t = gen::corpus_sv(rng, 1500).to_string();
+            if rng.coin() { gen::rewrap_nonansi(&t) } else { t }
+        }
         6 => {
             let t = gen::corpus_sv(rng, 1200).to_string();
             gen::inject_directives(rng, &t)
@@ -193,6 +197,20 @@ impl Property for C07 {
                 sc.expect = serde_json::json!({"same_len_pair": true});
             }
         }
+        // a large input earlier on the thread, then a probe that is sensitive to the memo capacity
+        if rng.chance(1, 25) {
+            let mut big = Call::new(Api::ParseSvStr, "big.sv");
+            big.text = Some(gen::big_text(&mut rng));
+            big.hash_seed = rng.next();
+            let mut probe = Call::new(*rng.pick(&[Api::ParseSvStr, Api::RawSv]), "probe.sv");
+            probe.text = Some(gen::capacity_sensitive_probe(&mut rng));
+            probe.hash_seed = rng.next();
+            calls.push(big.clone());
+            ops.push(Op::Call(big));
+            calls.push(probe.clone());
+            ops.push(Op::Call(probe));
+            sc.family = "history+big-text".into();
+        }
         // the same text again with other arguments: a result cached by text (or by path) alone would be stale
         if rng.chance(1, 3) {
             let mut again = rng.pick(&calls).clone();
@@ -303,6 +321,9 @@ impl Property for C07 {
                     }
                     if c.slot_off > 0 {
                         rep.probe("adjacent_slice", 1);
+                    }
+                    if c.path == "big.sv" {
+                        rep.probe("big_text_calls", 1);
                     }
                     if c.slot.is_some()
                         && prev.last().map(|(a, t)| *a == c.slot && t.as_ref().map(|t| t.len()) == c.text.as_ref().map(|t| t.len()) && *t != c.text).unwrap_or(false)
